@@ -190,6 +190,11 @@ pub struct XEnc {
     /// members of a shared formula repeat the master's text inside their <f t="shared" si=..> element (ECMA-376 18.3.1.40 allows it;
     /// the member's formula is still the master's, moved)
     pub shared_members_carry_text: bool,
+    /// table parts named xl/tbl/tN.xml instead of xl/tables/tableN.xml
+    pub odd_table_part_names: bool,
+    /// write the attributes of a cell element as t, s, r instead of r, s, t (number cells then carry an explicit t="n", so
+    /// that there is a t to come first)
+    pub cell_attrs_reversed: bool,
     /// the optional neighbours of sheetData a real writer emits: sheetPr, sheetFormatPr, cols, row spans / heights, cell cm/vm/ph
     /// attributes, sheetProtection, autoFilter, conditionalFormatting and dataValidations (with formula elements), pageMargins,
     /// and an extLst whose x14 rules contain xm:f / xm:sqref elements
@@ -199,7 +204,7 @@ impl Default for XEnc {
     fn default() -> Self {
         XEnc {
             prefix: false, row_r: RMode::Explicit, cell_r: RMode::Explicit, dim: DimMode::Exact, target: TargetMode::Relative,
-            upper_parts: false, upper_root: false, apply_nf: 0, method: Method::Deflated, explicit_t_n: false, empty_rows: false, reorder_members: false, rid_shuffle: false, indent: false, rels_target_first: false, rows_never_r: false, split_text_nodes: false, comments: false, extras: false, bool_words: false, sst_count_refs: false, numfmt_code_first: false, shared_members_carry_text: false,
+            upper_parts: false, upper_root: false, apply_nf: 0, method: Method::Deflated, explicit_t_n: false, empty_rows: false, reorder_members: false, rid_shuffle: false, indent: false, rels_target_first: false, rows_never_r: false, split_text_nodes: false, comments: false, extras: false, bool_words: false, sst_count_refs: false, numfmt_code_first: false, shared_members_carry_text: false, cell_attrs_reversed: false, odd_table_part_names: false,
         }
     }
 }
@@ -212,6 +217,8 @@ pub struct XBook {
     pub date1904: Option<bool>,
     pub defined_names: Vec<(String, String)>,
     pub vba: Option<Vec<u8>>,
+    /// localSheetId of the i-th defined name (a sheet-local name; several sheets may define the same name, e.g. _xlnm.Print_Area)
+    pub defined_name_local_sheet: Vec<Option<u32>>,
 }
 
 struct Tg { p: &'static str }
@@ -316,11 +323,11 @@ pub fn sheet_xml(sh: &XSheet, enc: &XEnc, table_rids: &[String]) -> String {
             let mut attrs = String::new();
             // a cell without r sits at (row cursor, column cursor): legal only where that is the cell's position
             let implicit_cell = enc.cell_r == RMode::Implicit && c.col == cursor_col && row_known;
-            if !implicit_cell { attrs.push_str(&format!(" r=\"{}\"", a1(c.row, c.col))); }
-            if let Some(s) = c.style { attrs.push_str(&format!(" s=\"{s}\"")); }
-            if enc.extras { attrs.push_str(" cm=\"0\" vm=\"0\" ph=\"1\""); }
+            let a_r = if !implicit_cell { format!(" r=\"{}\"", a1(c.row, c.col)) } else { String::new() };
+            let a_s = c.style.map(|s| format!(" s=\"{s}\"")).unwrap_or_default();
+            let a_x = if enc.extras { " cm=\"0\" vm=\"0\" ph=\"1\"" } else { "" };
             let t = match &c.val {
-                XVal::Num(_) => if enc.explicit_t_n { Some("n") } else { None },
+                XVal::Num(_) => if enc.explicit_t_n || enc.cell_attrs_reversed { Some("n") } else { None },
                 XVal::SharedStr(_) => Some("s"),
                 XVal::InlineStr(_) => Some("inlineStr"),
                 XVal::Str(..) => Some("str"),
@@ -329,7 +336,9 @@ pub fn sheet_xml(sh: &XSheet, enc: &XEnc, table_rids: &[String]) -> String {
                 XVal::IsoDate(_) => Some("d"),
                 XVal::None => None,
             };
-            if let Some(t) = t { attrs.push_str(&format!(" t=\"{t}\"")); }
+            let a_t = t.map(|t| format!(" t=\"{t}\"")).unwrap_or_default();
+            // attributes of an element have no order: r s t as the schema lists them, or t first
+            if enc.cell_attrs_reversed { attrs.push_str(&format!("{a_t}{a_x}{a_s}{a_r}")); } else { attrs.push_str(&format!("{a_r}{a_s}{a_x}{a_t}")); }
             let mut body = String::new();
             if let Some(f) = &c.formula {
                 match f {
@@ -458,11 +467,17 @@ pub fn workbook_xml(b: &XBook, enc: &XEnc) -> String {
     o.push_str(&tg.c("sheets"));
     if !b.defined_names.is_empty() {
         o.push_str(&format!("{}>", tg.o("definedNames")));
-        for (n, v) in &b.defined_names {
+        for (ni, (n, v)) in b.defined_names.iter().enumerate() {
             let body = if enc.split_text_nodes && v.chars().count() >= 2 { let k = v.char_indices().nth(v.chars().count() / 2).unwrap().0; format!("{}<!-- c -->{}", esc_text(&v[..k]), esc_text(&v[k..])) } else { esc_text(v) };
-            o.push_str(&format!("{} name=\"{}\">{}{}", tg.o("definedName"), esc(n), body, tg.c("definedName")));
+            let local = b.defined_name_local_sheet.get(ni).copied().flatten().map(|i| format!(" localSheetId=\"{i}\"")).unwrap_or_default();
+            o.push_str(&format!("{} name=\"{}\"{local}>{}{}", tg.o("definedName"), esc(n), body, tg.c("definedName")));
         }
         o.push_str(&tg.c("definedNames"));
+    }
+    // what Excel 2013+ appends to every workbook part: calcPr and an extension list whose x15 element is called workbookPr again
+    if enc.extras {
+        o.push_str(&format!("{} calcId=\"191029\"/>", tg.o("calcPr")));
+        o.push_str(&format!("{}>{} uri=\"{{140A7094-0E35-4892-8432-C4D2E57EDEB5}}\" xmlns:x15=\"http://schemas.microsoft.com/office/spreadsheetml/2010/11/main\"><x15:workbookPr chartTrackingRefBase=\"1\"/>{}{}", tg.o("extLst"), tg.o("ext"), tg.c("ext"), tg.c("extLst")));
     }
     o.push_str(&tg.c("workbook"));
     o
@@ -508,8 +523,10 @@ pub fn parts(b: &XBook, enc: &XEnc) -> Vec<(String, Vec<u8>)> {
             for t in &s.tables {
                 table_no += 1;
                 let rid = format!("rId{}", rids.len() + 1);
-                srel.push_str(&format!("<Relationship Id=\"{rid}\" Type=\"http://schemas.openxmlformats.org/officeDocument/2006/relationships/table\" Target=\"../tables/table{table_no}.xml\"/>"));
-                tail.push((format!("xl/tables/table{table_no}.xml"), table_xml(t, table_no)));
+                // part names are free (OPC): Excel uses xl/tables/tableN.xml, other writers their own folder and file names
+                let part = if enc.odd_table_part_names { format!("tbl/t{table_no}.xml") } else { format!("tables/table{table_no}.xml") };
+                srel.push_str(&format!("<Relationship Id=\"{rid}\" Type=\"http://schemas.openxmlformats.org/officeDocument/2006/relationships/table\" Target=\"../{part}\"/>"));
+                tail.push((format!("xl/{part}"), table_xml(t, table_no)));
                 rids.push(rid);
             }
             srel.push_str("</Relationships>");
